@@ -339,4 +339,744 @@ example (X : Ext) : access X .float (.bool true) = .float 0 := rfl
 example : Expect.coercionTable .bool .float = .x := rfl
 example (X : Ext) : access X .string (.bytes [104]) = .str (X.objString (.bytes [104])) := rfl
 
+/-! ## API histories: the concrete model refines the abstract specification -/
+
+/-! ## API refinement -/
+
+def mapVals {α β : Type} (f : α → β) (l : List (String × α)) : List (String × β) := l.map (fun p => (p.1, f p.2))
+
+theorem hasKey_mapVals {α β : Type} (f : α → β) (n : String) (l : List (String × α)) :
+    hasKey n (mapVals f l) = hasKey n l := by
+  simp only [hasKey, mapVals, List.any_map]
+  rfl
+
+theorem setKey_mapVals {α β : Type} (f : α → β) (n : String) (a : α) (l : List (String × α)) :
+    setKey n (f a) (mapVals f l) = mapVals f (setKey n a l) := by
+  simp only [setKey, mapVals, List.map_map]
+  apply List.map_congr_left
+  intro p _
+  by_cases hp : p.1 = n <;> simp [hp]
+
+theorem upsert_mapVals {α β : Type} (f : α → β) (n : String) (a : α) (l : List (String × α)) :
+    upsert n (f a) (mapVals f l) = mapVals f (upsert n a l) := by
+  unfold upsert
+  rw [hasKey_mapVals]
+  split
+  · exact setKey_mapVals f n a l
+  · simp [mapVals]
+
+theorem eraseKey_mapVals {α β : Type} (f : α → β) (n : String) (l : List (String × α)) :
+    eraseKey n (mapVals f l) = mapVals f (eraseKey n l) := by
+  induction l with
+  | nil => rfl
+  | cons p l ih =>
+    simp only [eraseKey, mapVals, List.map_cons, List.filter_cons] at ih ⊢
+    by_cases hp : p.1 = n <;> simp [hp, ih]
+
+theorem lookup_mapVals {α β : Type} (f : α → β) (n : String) (l : List (String × α)) :
+    (mapVals f l).lookup n = (l.lookup n).map f := by
+  induction l with
+  | nil => rfl
+  | cons p l ih =>
+    obtain ⟨k, a⟩ := p
+    simp only [mapVals, List.map_cons, List.lookup_cons] at ih ⊢
+    cases hp : (n == k) <;> simp [ih]
+
+theorem keys_mapVals {α β : Type} (f : α → β) (l : List (String × α)) :
+    (mapVals f l).map (·.1) = l.map (·.1) := by
+  simp [mapVals]
+
+theorem length_mapVals {α β : Type} (f : α → β) (l : List (String × α)) : (mapVals f l).length = l.length := by
+  simp [mapVals]
+
+theorem mapVals_congr {α β : Type} (f g : α → β) (l : List (String × α)) (h : ∀ p ∈ l, f p.2 = g p.2) :
+    mapVals f l = mapVals g l := by
+  apply List.map_congr_left
+  intro p hp
+  rw [h p hp]
+
+/-- Abstraction: every reference is replaced by the object it points to. -/
+def absVars (st : List TVal) (vars : List (String × Nat)) : List (String × TVal) := mapVals (deref st) vars
+def absEnv (st : List TVal) (sl : List (String × Option Nat)) : List (String × Option TVal) :=
+  mapVals (Option.map (deref st)) sl
+def absScript (st : List TVal) (s : ScriptSt) : AScript := { vars := absVars st s.vars, src := s.src }
+def absCompiled (st : List TVal) (c : CompiledSt) : ACompiled := { env := absEnv st c.slots, code := c.code }
+def absOf (h : Host) : Abs :=
+  { scripts := h.scripts.map (absScript h.store), compiled := h.compiled.map (absCompiled h.store) }
+
+def VarsOK (n : Nat) (vars : List (String × Nat)) : Prop := ∀ p ∈ vars, p.2 < n
+def SlotsOK (n : Nat) (sl : List (String × Option Nat)) : Prop := ∀ p ∈ sl, ∀ r, p.2 = some r → r < n
+
+/-- Every reference held by a handle points into the store. -/
+structure WF (h : Host) : Prop where
+  scripts : ∀ s ∈ h.scripts, VarsOK h.store.length s.vars
+  compiled : ∀ c ∈ h.compiled, SlotsOK h.store.length c.slots
+
+structure PureH (h : Host) : Prop where
+  scripts : ∀ s ∈ h.scripts, s.src.all Stmt.pure = true
+  compiled : ∀ c ∈ h.compiled, c.code.all Stmt.pure = true
+
+theorem deref_append (st ext : List TVal) (r : Nat) (h : r < st.length) : deref (st ++ ext) r = deref st r := by
+  simp [deref, List.getElem?_append_left h]
+
+theorem VarsOK.mono {n m : Nat} {vars : List (String × Nat)} (h : VarsOK n vars) (hnm : n ≤ m) : VarsOK m vars :=
+  fun p hp => Nat.lt_of_lt_of_le (h p hp) hnm
+
+theorem SlotsOK.mono {n m : Nat} {sl : List (String × Option Nat)} (h : SlotsOK n sl) (hnm : n ≤ m) : SlotsOK m sl :=
+  fun p hp r hr => Nat.lt_of_lt_of_le (h p hp r hr) hnm
+
+theorem absVars_append (st ext : List TVal) (vars : List (String × Nat)) (h : VarsOK st.length vars) :
+    absVars (st ++ ext) vars = absVars st vars :=
+  mapVals_congr _ _ _ (fun p hp => deref_append st ext p.2 (h p hp))
+
+theorem absEnv_append (st ext : List TVal) (sl : List (String × Option Nat)) (h : SlotsOK st.length sl) :
+    absEnv (st ++ ext) sl = absEnv st sl := by
+  apply mapVals_congr
+  intro p hp
+  cases hr : p.2 with
+  | none => rfl
+  | some r => simp [deref_append st ext r (h p hp r hr)]
+
+theorem SlotsOK.setKey {n : Nat} {sl : List (String × Option Nat)} (h : SlotsOK n sl) (d : String) (o : Option Nat)
+    (ho : ∀ r, o = some r → r < n) : SlotsOK n (setKey d o sl) := by
+  intro p hp r hr
+  simp only [Tengo.Model.Host.setKey, List.mem_map] at hp
+  obtain ⟨q, hq, rfl⟩ := hp
+  split at hr
+  · exact ho r hr
+  · exact h q hq r hr
+
+theorem lookup_mem {α : Type} (l : List (String × α)) (x : String) (a : α) (h : l.lookup x = some a) : (x, a) ∈ l := by
+  induction l with
+  | nil => simp at h
+  | cons p l ih =>
+    obtain ⟨k, b⟩ := p
+    simp only [List.lookup_cons] at h
+    cases hk : (x == k) with
+    | true =>
+      simp [hk] at h
+      have : x = k := by simpa using hk
+      subst this; subst h
+      exact List.mem_cons_self
+    | false =>
+      simp [hk] at h
+      exact List.mem_cons_of_mem _ (ih h)
+
+theorem slotOf_ok {n : Nat} {sl : List (String × Option Nat)} (h : SlotsOK n sl) (x : String) :
+    ∀ r, slotOf sl x = some r → r < n := by
+  intro r hr
+  unfold slotOf at hr
+  cases hl : sl.lookup x with
+  | none => simp [hl] at hr
+  | some o =>
+    simp [hl] at hr
+    subst hr
+    have : (x, some r) ∈ sl := lookup_mem _ _ _ hl
+    exact h _ this r rfl
+
+theorem envOf_absEnv (st : List TVal) (sl : List (String × Option Nat)) (x : String) :
+    envOf (absEnv st sl) x = (slotOf sl x).map (deref st) := by
+  unfold envOf slotOf absEnv
+  rw [lookup_mapVals]
+  cases sl.lookup x with
+  | none => rfl
+  | some o => cases o <;> rfl
+
+theorem deref_new (st : List TVal) (v : TVal) : deref (st ++ [v]) st.length = v := by
+  simp [deref]
+
+theorem absEnv_setKey_const (st : List TVal) (sl : List (String × Option Nat)) (d : String) (v : TVal)
+    (h : SlotsOK st.length sl) :
+    absEnv (st ++ [v]) (setKey d (some st.length) sl) = setKey d (some v) (absEnv st sl) := by
+  unfold absEnv
+  rw [← setKey_mapVals]
+  simp only [Option.map_some, deref_new]
+  congr 1
+  exact absEnv_append st [v] sl h
+
+theorem absEnv_setKey_var (st : List TVal) (sl : List (String × Option Nat)) (d x : String) :
+    absEnv st (setKey d (slotOf sl x) sl) = setKey d (envOf (absEnv st sl) x) (absEnv st sl) := by
+  rw [envOf_absEnv]
+  unfold absEnv
+  rw [← setKey_mapVals]
+
+theorem slotsOK_const {st : List TVal} {sl : List (String × Option Nat)} (h : SlotsOK st.length sl) (d : String) (v : TVal) :
+    SlotsOK (st ++ [v]).length (setKey d (some st.length) sl) := by
+  apply SlotsOK.setKey (h.mono (by simp))
+  intro r hr
+  cases hr
+  simp
+
+/-- One run of code without in-place updates: the store only grows, references stay valid, and the
+abstract run over the dereferenced globals ends in the dereferenced globals with the same outcome. -/
+theorem exec_sim : ∀ (code : List Stmt) (st : List TVal) (sl : List (String × Option Nat)),
+    code.all Stmt.pure = true → SlotsOK st.length sl →
+    (∃ ext, (execC code st sl).1 = st ++ ext) ∧
+    SlotsOK (execC code st sl).1.length (execC code st sl).2.1 ∧
+    execA code (absEnv st sl) = (absEnv (execC code st sl).1 (execC code st sl).2.1, (execC code st sl).2.2)
+  | [], st, sl, _, hs => ⟨⟨[], by simp [execC]⟩, by simpa [execC] using hs, by simp [execC, execA]⟩
+  | .fail :: rest, st, sl, _, hs => ⟨⟨[], by simp [execC]⟩, by simpa [execC] using hs, by simp [execC, execA]⟩
+  | .selset d k v :: rest, st, sl, hp, _ => by simp [Stmt.pure] at hp
+  | .define d (.const v) :: rest, st, sl, hp, hs => by
+      have hp' : rest.all Stmt.pure = true := by simp only [List.all_cons, Bool.and_eq_true] at hp; exact hp.2
+      obtain ⟨⟨ext, he⟩, h2, h3⟩ := exec_sim rest (st ++ [v]) (setKey d (some st.length) sl) hp' (slotsOK_const hs d v)
+      simp only [execC, execA]
+      refine ⟨⟨[v] ++ ext, by rw [he, List.append_assoc]⟩, h2, ?_⟩
+      rw [← absEnv_setKey_const st sl d v hs]; exact h3
+  | .assign d (.const v) :: rest, st, sl, hp, hs => by
+      have hp' : rest.all Stmt.pure = true := by simp only [List.all_cons, Bool.and_eq_true] at hp; exact hp.2
+      obtain ⟨⟨ext, he⟩, h2, h3⟩ := exec_sim rest (st ++ [v]) (setKey d (some st.length) sl) hp' (slotsOK_const hs d v)
+      simp only [execC, execA]
+      refine ⟨⟨[v] ++ ext, by rw [he, List.append_assoc]⟩, h2, ?_⟩
+      rw [← absEnv_setKey_const st sl d v hs]; exact h3
+  | .define d (.var x) :: rest, st, sl, hp, hs => by
+      have hp' : rest.all Stmt.pure = true := by simp only [List.all_cons, Bool.and_eq_true] at hp; exact hp.2
+      obtain ⟨h1, h2, h3⟩ := exec_sim rest st (setKey d (slotOf sl x) sl) hp' (hs.setKey d _ (slotOf_ok hs x))
+      simp only [execC, execA]
+      refine ⟨h1, h2, ?_⟩
+      rw [← absEnv_setKey_var]; exact h3
+  | .assign d (.var x) :: rest, st, sl, hp, hs => by
+      have hp' : rest.all Stmt.pure = true := by simp only [List.all_cons, Bool.and_eq_true] at hp; exact hp.2
+      obtain ⟨h1, h2, h3⟩ := exec_sim rest st (setKey d (slotOf sl x) sl) hp' (hs.setKey d _ (slotOf_ok hs x))
+      simp only [execC, execA]
+      refine ⟨h1, h2, ?_⟩
+      rw [← absEnv_setKey_var]; exact h3
+
+theorem clone_sim : ∀ (sl : List (String × Option Nat)) (st : List TVal), SlotsOK st.length sl →
+    (∃ ext, (cloneSlots sl st).1 = st ++ ext) ∧
+    SlotsOK (cloneSlots sl st).1.length (cloneSlots sl st).2 ∧
+    absEnv (cloneSlots sl st).1 (cloneSlots sl st).2 = mapVals (Option.map copyT) (absEnv st sl)
+  | [], st, _ => ⟨⟨[], by simp [cloneSlots]⟩, by intro p hp; simp [cloneSlots] at hp, by simp [cloneSlots, absEnv, mapVals]⟩
+  | (n, none) :: rest, st, hs => by
+      have hs' : SlotsOK st.length rest := fun p hp => hs p (List.mem_cons_of_mem _ hp)
+      obtain ⟨h1, h2, h3⟩ := clone_sim rest st hs'
+      simp only [cloneSlots]
+      refine ⟨h1, ?_, ?_⟩
+      · intro p hp r hr
+        cases hp with
+        | head => cases hr
+        | tail _ hp => exact h2 p hp r hr
+      · simp only [absEnv, mapVals, List.map_cons] at h3 ⊢
+        rw [h3]; rfl
+  | (n, some r) :: rest, st, hs => by
+      have hr : r < st.length := hs _ List.mem_cons_self r rfl
+      have hs' : SlotsOK (st ++ [copyT (deref st r)]).length rest :=
+        SlotsOK.mono (fun p hp => hs p (List.mem_cons_of_mem _ hp)) (by simp)
+      obtain ⟨⟨ext, he⟩, h2, h3⟩ := clone_sim rest (st ++ [copyT (deref st r)]) hs'
+      simp only [cloneSlots]
+      refine ⟨⟨[copyT (deref st r)] ++ ext, by rw [he, List.append_assoc]⟩, ?_, ?_⟩
+      · intro p hp r' hr'
+        cases hp with
+        | head => cases hr'; rw [he]; simp
+        | tail _ hp => exact h2 p hp r' hr'
+      · have hd : deref (cloneSlots rest (st ++ [copyT (deref st r)])).1 st.length = copyT (deref st r) := by
+          rw [he, deref_append _ _ _ (by simp), deref_new]
+        have ha : absEnv (st ++ [copyT (deref st r)]) rest = absEnv st rest :=
+          absEnv_append _ _ _ (fun p hp => hs p (List.mem_cons_of_mem _ hp))
+        simp only [absEnv, mapVals, List.map_cons, Option.map_some] at h3 ha hd ⊢
+        rw [h3, ha, hd]
+
+theorem absScripts_append (h : Host) (hw : WF h) (ext : List TVal) :
+    h.scripts.map (absScript (h.store ++ ext)) = h.scripts.map (absScript h.store) := by
+  apply List.map_congr_left
+  intro s hs
+  simp only [absScript, absVars_append _ ext _ (hw.scripts s hs)]
+
+theorem absCompileds_append (h : Host) (hw : WF h) (ext : List TVal) :
+    h.compiled.map (absCompiled (h.store ++ ext)) = h.compiled.map (absCompiled h.store) := by
+  apply List.map_congr_left
+  intro c hc
+  simp only [absCompiled, absEnv_append _ ext _ (hw.compiled c hc)]
+
+theorem mem_set {α : Type} {l : List α} {i : Nat} {a x : α} (h : x ∈ l.set i a) : x = a ∨ x ∈ l := by
+  rcases List.mem_or_eq_of_mem_set h with h | h
+  · exact Or.inr h
+  · exact Or.inl h
+
+theorem mem_of_getElem? {α : Type} {l : List α} {i : Nat} {a : α} (h : l[i]? = some a) : a ∈ l :=
+  List.mem_of_getElem? h
+
+def Sim (L : Limits) (h : Host) (op : Op) : Prop :=
+  WF (step L h op).1 ∧ PureH (step L h op).1 ∧ astep L (absOf h) op = (absOf (step L h op).1, (step L h op).2)
+
+theorem sim_newScript (L : Limits) (h : Host) (src : List Stmt) (hw : WF h) (hp : PureH h)
+    (hsrc : src.all Stmt.pure = true) : Sim L h (.newScript src) := by
+  refine ⟨⟨?_, hw.compiled⟩, ⟨?_, hp.compiled⟩, ?_⟩
+  · intro s hs
+    simp only [step, List.mem_append, List.mem_singleton] at hs
+    rcases hs with hs | rfl
+    · exact hw.scripts s hs
+    · intro p hp; cases hp
+  · intro s hs
+    simp only [step, List.mem_append, List.mem_singleton] at hs
+    rcases hs with hs | rfl
+    · exact hp.scripts s hs
+    · exact hsrc
+  · simp [step, astep, absOf, absScript, absVars, mapVals]
+
+theorem sim_add (L : Limits) (h : Host) (s : Nat) (n : String) (g : GoVal) (hw : WF h) (hp : PureH h) :
+    Sim L h (.add s n g) := by
+  unfold Sim
+  cases hs : h.scripts[s]? with
+  | none => simp [step, astep, absOf, hs, hw, hp]
+  | some sc =>
+    cases hg : fromInterface L g with
+    | error e => simp [step, astep, absOf, hs, hg, hw, hp]
+    | ok v =>
+      have hsc := mem_of_getElem? hs
+      simp only [step, hs, hg]
+      refine ⟨⟨?_, ?_⟩, ⟨?_, hp.compiled⟩, ?_⟩
+      · intro s' hs'
+        rcases mem_set hs' with rfl | hs'
+        · intro p hp'
+          simp only [upsert] at hp'
+          split at hp'
+          · simp only [setKey, List.mem_map] at hp'
+            obtain ⟨q, hq, rfl⟩ := hp'
+            split
+            · simp
+            · exact Nat.lt_of_lt_of_le (hw.scripts sc hsc q hq) (by simp)
+          · simp only [List.mem_append, List.mem_singleton] at hp'
+            rcases hp' with hp' | rfl
+            · exact Nat.lt_of_lt_of_le (hw.scripts sc hsc p hp') (by simp)
+            · simp
+        · exact (hw.scripts s' hs').mono (by simp)
+      · intro c hc
+        exact (hw.compiled c hc).mono (by simp)
+      · intro s' hs'
+        rcases mem_set hs' with rfl | hs'
+        · exact hp.scripts sc hsc
+        · exact hp.scripts s' hs'
+      · simp only [astep, absOf, List.getElem?_map, hs, Option.map_some, hg, List.map_set]
+        rw [absCompileds_append h hw]
+        congr 2
+        · congr 1
+          · exact (absScripts_append h hw [v]).symm
+          · simp only [absScript, absVars]
+            rw [← upsert_mapVals (deref (h.store ++ [v])), deref_new]
+            congr 2
+            exact (absVars_append _ _ _ (hw.scripts sc hsc)).symm
+
+theorem sim_remove (L : Limits) (h : Host) (s : Nat) (n : String) (hw : WF h) (hp : PureH h) :
+    Sim L h (.remove s n) := by
+  unfold Sim
+  cases hs : h.scripts[s]? with
+  | none => simp [step, astep, absOf, hs, hw, hp]
+  | some sc =>
+    have hsc := mem_of_getElem? hs
+    by_cases hk : hasKey n sc.vars = true
+    · simp only [step, hs, hk, if_true]
+      refine ⟨⟨?_, hw.compiled⟩, ⟨?_, hp.compiled⟩, ?_⟩
+      · intro s' hs'
+        rcases mem_set hs' with rfl | hs'
+        · intro p hp'
+          simp only [eraseKey, List.mem_filter] at hp'
+          exact hw.scripts sc hsc p hp'.1
+        · exact hw.scripts s' hs'
+      · intro s' hs'
+        rcases mem_set hs' with rfl | hs'
+        · exact hp.scripts sc hsc
+        · exact hp.scripts s' hs'
+      · simp only [astep, absOf, List.getElem?_map, hs, Option.map_some, List.map_set, absScript, absVars,
+          hasKey_mapVals, hk, if_true, eraseKey_mapVals]
+    · simp only [step, hs, hk]
+      refine ⟨hw, hp, ?_⟩
+      simp [astep, absOf, List.getElem?_map, hs, absScript, absVars, hasKey_mapVals, hk]
+
+theorem sim_compile (L : Limits) (h : Host) (s : Nat) (hw : WF h) (hp : PureH h) :
+    Sim L h (.compile s) := by
+  unfold Sim
+  cases hs : h.scripts[s]? with
+  | none => simp [step, astep, absOf, hs, hw, hp]
+  | some sc =>
+    have hsc := mem_of_getElem? hs
+    cases hc : compileNames sc.src (sc.vars.map (·.1)) with
+    | error e =>
+      simp only [step, hs, hc]
+      refine ⟨hw, hp, ?_⟩
+      simp [astep, absOf, List.getElem?_map, hs, absScript, absVars, keys_mapVals, hc]
+    | ok names =>
+      simp only [step, hs, hc]
+      refine ⟨⟨hw.scripts, ?_⟩, ⟨hp.scripts, ?_⟩, ?_⟩
+      · intro c hc'
+        simp only [List.mem_append, List.mem_singleton] at hc'
+        rcases hc' with hc' | rfl
+        · exact hw.compiled c hc'
+        · intro p hp' r hr
+          simp only [List.mem_append, List.mem_map] at hp'
+          rcases hp' with ⟨q, hq, rfl⟩ | ⟨q, _, rfl⟩
+          · cases hr; exact hw.scripts sc hsc q hq
+          · cases hr
+      · intro c hc'
+        simp only [List.mem_append, List.mem_singleton] at hc'
+        rcases hc' with hc' | rfl
+        · exact hp.compiled c hc'
+        · exact hp.scripts sc hsc
+      · simp only [astep, absOf, List.getElem?_map, hs, Option.map_some, absScript, absVars, keys_mapVals, hc,
+          length_mapVals, List.length_map]
+        simp [absCompiled, absEnv, mapVals]
+        rfl
+
+theorem sim_set (L : Limits) (h : Host) (c : Nat) (n : String) (g : GoVal) (hw : WF h) (hp : PureH h) :
+    Sim L h (.set c n g) := by
+  unfold Sim
+  cases hs : h.compiled[c]? with
+  | none => simp [step, astep, absOf, hs, hw, hp]
+  | some cs =>
+    have hcs := mem_of_getElem? hs
+    cases hg : fromInterface L g with
+    | error e => simp [step, astep, absOf, hs, hg, hw, hp]
+    | ok v =>
+      by_cases hk : hasKey n cs.slots = true
+      · simp only [step, hs, hg, hk, if_true]
+        refine ⟨⟨?_, ?_⟩, ⟨hp.scripts, ?_⟩, ?_⟩
+        · intro s' hs'
+          exact (hw.scripts s' hs').mono (by simp)
+        · intro c' hc'
+          rcases mem_set hc' with rfl | hc'
+          · exact slotsOK_const (hw.compiled cs hcs) n v
+          · exact (hw.compiled c' hc').mono (by simp)
+        · intro c' hc'
+          rcases mem_set hc' with rfl | hc'
+          · exact hp.compiled cs hcs
+          · exact hp.compiled c' hc'
+        · simp only [astep, absOf, List.getElem?_map, hs, Option.map_some, hg, List.map_set, absCompiled, absEnv,
+            hasKey_mapVals, hk, if_true]
+          rw [absScripts_append h hw]
+          congr 2
+          congr 1
+          · exact (absCompileds_append h hw [v]).symm
+          · congr 1
+            exact (absEnv_setKey_const h.store cs.slots n v (hw.compiled cs hcs)).symm
+      · simp only [step, hs, hg, hk]
+        refine ⟨hw, hp, ?_⟩
+        simp [astep, absOf, List.getElem?_map, hs, hg, absCompiled, absEnv, hasKey_mapVals, hk]
+
+theorem sim_run (L : Limits) (h : Host) (c : Nat) (hw : WF h) (hp : PureH h) : Sim L h (.run c) := by
+  unfold Sim
+  cases hs : h.compiled[c]? with
+  | none => simp [step, astep, absOf, hs, hw, hp]
+  | some cs =>
+    have hcs := mem_of_getElem? hs
+    obtain ⟨⟨ext, he⟩, h2, h3⟩ := exec_sim cs.code h.store cs.slots (hp.compiled cs hcs) (hw.compiled cs hcs)
+    simp only [step, hs]
+    refine ⟨⟨?_, ?_⟩, ⟨hp.scripts, ?_⟩, ?_⟩
+    · intro s' hs'
+      exact (hw.scripts s' hs').mono (by rw [he]; simp)
+    · intro c' hc'
+      rcases mem_set hc' with rfl | hc'
+      · exact h2
+      · exact (hw.compiled c' hc').mono (by rw [he]; simp)
+    · intro c' hc'
+      rcases mem_set hc' with rfl | hc'
+      · exact hp.compiled cs hcs
+      · exact hp.compiled c' hc'
+    · simp only [astep, absOf, List.getElem?_map, hs, Option.map_some, List.map_set, absCompiled, h3]
+      rw [he, absScripts_append h hw, absCompileds_append h hw, ← he]
+
+theorem sim_get (L : Limits) (h : Host) (c : Nat) (n : String) (hw : WF h) (hp : PureH h) : Sim L h (.get c n) := by
+  unfold Sim
+  cases hs : h.compiled[c]? with
+  | none => simp [step, astep, absOf, hs, hw, hp]
+  | some cs =>
+    simp only [step, hs]
+    refine ⟨hw, hp, ?_⟩
+    simp [astep, absOf, List.getElem?_map, hs, absCompiled, envOf_absEnv]
+
+theorem sim_getAll (L : Limits) (h : Host) (c : Nat) (hw : WF h) (hp : PureH h) : Sim L h (.getAll c) := by
+  unfold Sim
+  cases hs : h.compiled[c]? with
+  | none => simp [step, astep, absOf, hs, hw, hp]
+  | some cs =>
+    simp only [step, hs]
+    refine ⟨hw, hp, ?_⟩
+    simp [astep, absOf, List.getElem?_map, hs, absCompiled, absEnv, mapVals]
+
+theorem sim_isDefined (L : Limits) (h : Host) (c : Nat) (n : String) (hw : WF h) (hp : PureH h) :
+    Sim L h (.isDefined c n) := by
+  unfold Sim
+  cases hs : h.compiled[c]? with
+  | none => simp [step, astep, absOf, hs, hw, hp]
+  | some cs =>
+    simp only [step, hs]
+    refine ⟨hw, hp, ?_⟩
+    simp only [astep, absOf, List.getElem?_map, hs, Option.map_some, absCompiled, envOf_absEnv]
+    cases slotOf cs.slots n <;> rfl
+
+theorem sim_clone (L : Limits) (h : Host) (c : Nat) (hw : WF h) (hp : PureH h) : Sim L h (.clone c) := by
+  unfold Sim
+  cases hs : h.compiled[c]? with
+  | none => simp [step, astep, absOf, hs, hw, hp]
+  | some cs =>
+    have hcs := mem_of_getElem? hs
+    obtain ⟨⟨ext, he⟩, h2, h3⟩ := clone_sim cs.slots h.store (hw.compiled cs hcs)
+    simp only [step, hs]
+    refine ⟨⟨?_, ?_⟩, ⟨hp.scripts, ?_⟩, ?_⟩
+    · intro s' hs'
+      exact (hw.scripts s' hs').mono (by rw [he]; simp)
+    · intro c' hc'
+      simp only [List.mem_append, List.mem_singleton] at hc'
+      rcases hc' with hc' | rfl
+      · exact (hw.compiled c' hc').mono (by rw [he]; simp)
+      · exact h2
+    · intro c' hc'
+      simp only [List.mem_append, List.mem_singleton] at hc'
+      rcases hc' with hc' | rfl
+      · exact hp.compiled c' hc'
+      · exact hp.compiled cs hcs
+    · simp only [astep, absOf, List.getElem?_map, hs, Option.map_some, List.map_append, List.map_cons, List.map_nil,
+        absCompiled, h3, List.length_map]
+      rw [he, absScripts_append h hw, absCompileds_append h hw]
+      rfl
+
+/-- One API call: the concrete model and the abstract specification answer alike and stay related. -/
+theorem step_sim (L : Limits) (h : Host) (op : Op) (hw : WF h) (hp : PureH h) (hop : op.pure = true) : Sim L h op := by
+  cases op with
+  | newScript src => exact sim_newScript L h src hw hp hop
+  | add s n g => exact sim_add L h s n g hw hp
+  | remove s n => exact sim_remove L h s n hw hp
+  | compile s => exact sim_compile L h s hw hp
+  | set c n g => exact sim_set L h c n g hw hp
+  | run c => exact sim_run L h c hw hp
+  | get c n => exact sim_get L h c n hw hp
+  | getAll c => exact sim_getAll L h c hw hp
+  | isDefined c n => exact sim_isDefined L h c n hw hp
+  | clone c => exact sim_clone L h c hw hp
+
+theorem runOps_sim (L : Limits) : ∀ (ops : List Op) (h : Host), WF h → PureH h → (∀ op ∈ ops, op.pure = true) →
+    runOps L h ops = arunOps L (absOf h) ops
+  | [], _, _, _, _ => rfl
+  | op :: ops, h, hw, hp, hops => by
+      obtain ⟨hw', hp', hs⟩ := step_sim L h op hw hp (hops op List.mem_cons_self)
+      simp only [runOps, arunOps, hs]
+      rw [runOps_sim L ops _ hw' hp' (fun o ho => hops o (List.mem_cons_of_mem _ ho))]
+
+theorem wf_empty : WF {} := ⟨fun _ h => (by cases h), fun _ h => (by cases h)⟩
+theorem pure_empty : PureH {} := ⟨fun _ h => (by cases h), fun _ h => (by cases h)⟩
+
+/-- The full claim of the property on the model: for EVERY history of
+NewScript/Add/Remove/Compile/Set/Run/Get/GetAll/IsDefined/Clone calls every return value is the one of
+the abstract specification (names ↦ last value set by the host or assigned by the script). -/
+def api_refines_full (L : Limits) : Prop := ∀ ops : List Op, runOps L {} ops = arunOps L {} ops
+
+/-- Proved part: every history whose scripts do not update an object in place (`m.k = v`). Unbounded in
+the length of the history, the number of handles alive, the values and the limits. -/
+theorem api_refines_partial (L : Limits) (ops : List Op) (h : ∀ op ∈ ops, op.pure = true) :
+    runOps L {} ops = arunOps L {} ops :=
+  runOps_sim L ops {} wf_empty pure_empty h
+
+/-- Non-vacuity: a history with two Compiled handles and a clone alive, a failing run, a rejected Set
+and reads of unknown / not yet assigned names satisfies the hypothesis, and its outputs are not trivial. -/
+def sampleHistory : List Op := [
+  .newScript [.define "out" (.var "a"), .assign "a" (.const (.int 5)), .fail, .define "late" (.const (.int 1))],
+  .add 0 "a" (.int .int 1), .compile 0, .compile 0, .set 1 "a" (.str [120]), .set 1 "zz" (.int .int 3),
+  .isDefined 0 "out", .run 0, .get 0 "out", .get 0 "a", .get 1 "a", .isDefined 0 "late", .get 0 "nope",
+  .clone 0, .set 2 "out" (.nil), .get 0 "out", .isDefined 2 "out", .getAll 2]
+
+example : ∀ op ∈ sampleHistory, op.pure = true := by decide
+example : runOps ⟨100, 100⟩ {} sampleHistory =
+    [.script 0, .ok, .compiled 0, .compiled 1, .ok, .err (.notDefined "zz"), .bool false, .err .runtime,
+     .val (.int 1), .val (.int 5), .val (.str [120]), .bool false, .val .undefined, .compiled 2, .ok,
+     .val (.int 1), .bool false, .vars [("a", .int 5), ("out", .undefined), ("late", .undefined)]] := rfl
+
+/-- The full claim is FALSE of the model (and of script.go: known finding C15-1): `Compile` hands the
+very objects made by `Add` to every Compiled, so an in-place update through one handle shows in the other. -/
+def sharingWitness : List Op := [
+  .newScript [.selset "m" "x" (.int 2)], .add 0 "m" (.mapIface [("x", .int .int 1)]),
+  .compile 0, .compile 0, .run 0, .get 1 "m"]
+
+theorem api_refines_full_false (L : Limits) : ¬ api_refines_full L := by
+  intro h
+  have := h sharingWitness
+  simp [sharingWitness, runOps, arunOps, step, astep, fromInterface, fromInterfaceMap, compileNames, execC, execA,
+    slotOf, envOf, upsert, hasKey, setKey, deref] at this
+
+/-! ### Clauses of the statement, read off the model -/
+
+/-- `Set` rejects a name that was not declared at compile time, and changes nothing. -/
+theorem set_rejects_undeclared (L : Limits) (h : Host) (c : Nat) (cs : CompiledSt) (n : String) (g : GoVal) (v : TVal)
+    (hc : h.compiled[c]? = some cs) (hg : fromInterface L g = .ok v) (hn : hasKey n cs.slots = false) :
+    step L h (.set c n g) = (h, .err (.notDefined n)) := by
+  simp [step, hc, hg, hn]
+
+/-- `Get` of a name the Compiled does not know reads undefined; `IsDefined` is false for it. -/
+theorem get_unknown_undefined (L : Limits) (h : Host) (c : Nat) (cs : CompiledSt) (n : String)
+    (hc : h.compiled[c]? = some cs) (hn : hasKey n cs.slots = false) :
+    step L h (.get c n) = (h, .val .undefined) ∧ step L h (.isDefined c n) = (h, .bool false) := by
+  have hl : cs.slots.lookup n = none := by
+    cases hl : cs.slots.lookup n with
+    | none => rfl
+    | some o =>
+      have hm := lookup_mem _ _ _ hl
+      have : hasKey n cs.slots = true := by
+        simp only [hasKey, List.any_eq_true]
+        exact ⟨(n, o), hm, by simp⟩
+      rw [hn] at this; cases this
+  simp [step, hc, slotOf, hl]
+
+/-- `IsDefined` is false exactly when `Get` reads undefined. -/
+theorem isDefined_iff (L : Limits) (h : Host) (c : Nat) (n : String) (v : TVal) (b : Bool)
+    (hg : (step L h (.get c n)).2 = .val v) (hd : (step L h (.isDefined c n)).2 = .bool b) :
+    b = !isUndef v := by
+  cases hc : h.compiled[c]? with
+  | none => simp [step, hc] at hg
+  | some cs =>
+    simp only [step, hc] at hg hd
+    cases hs : slotOf cs.slots n with
+    | none => simp [hs] at hg hd; subst hg; subst hd; rfl
+    | some r => simp [hs] at hg hd; subst hg; rw [hd]; simp
+
+theorem setKey_keys {α : Type} (n : String) (a : α) (l : List (String × α)) :
+    (setKey n a l).map (·.1) = l.map (·.1) := by
+  simp only [setKey, List.map_map]
+  apply List.map_congr_left
+  intro p _
+  by_cases hp : p.1 = n <;> simp [hp]
+
+theorem execC_keys : ∀ (code : List Stmt) (st : List TVal) (sl : List (String × Option Nat)),
+    (execC code st sl).2.1.map (·.1) = sl.map (·.1)
+  | [], _, _ => rfl
+  | .fail :: _, _, _ => rfl
+  | .define d (.const v) :: rest, st, sl => by simp only [execC]; rw [execC_keys rest, setKey_keys]
+  | .assign d (.const v) :: rest, st, sl => by simp only [execC]; rw [execC_keys rest, setKey_keys]
+  | .define d (.var x) :: rest, st, sl => by simp only [execC]; rw [execC_keys rest, setKey_keys]
+  | .assign d (.var x) :: rest, st, sl => by simp only [execC]; rw [execC_keys rest, setKey_keys]
+  | .selset d k v :: rest, st, sl => by
+      simp only [execC]
+      split
+      · split
+        · exact execC_keys rest _ sl
+        · rfl
+      · rfl
+
+/-- The names a Compiled knows are fixed when it is compiled: no later call (Set, Run with any script of
+the family, Clone, …) adds or removes one. -/
+theorem names_fixed (L : Limits) (h : Host) (op : Op) (c : Nat) (hc : c < h.compiled.length) :
+    ((step L h op).1.compiled[c]?).map (fun cs => cs.slots.map (·.1)) =
+      (h.compiled[c]?).map (fun cs => cs.slots.map (·.1)) := by
+  cases op with
+  | newScript src => rfl
+  | add s n g =>
+    simp only [step]; split
+    · rfl
+    · split <;> rfl
+  | remove s n =>
+    simp only [step]; split
+    · rfl
+    · split <;> rfl
+  | compile s =>
+    simp only [step]; split
+    · rfl
+    · split
+      · rfl
+      · simp [List.getElem?_append_left hc]
+  | set c' n g =>
+    simp only [step]; split
+    · rfl
+    · rename_i cs hcs
+      split
+      · rfl
+      · split
+        · by_cases hcc : c' = c
+          · subst hcc
+            have hget : h.compiled[c'] = cs := by
+              rw [List.getElem?_eq_getElem hc] at hcs; exact Option.some.inj hcs
+            simp [hc, setKey_keys, hget]
+          · simp [hcc]
+        · rfl
+  | run c' =>
+    simp only [step]; split
+    · rfl
+    · rename_i cs hcs
+      by_cases hcc : c' = c
+      · subst hcc
+        have := execC_keys cs.code h.store cs.slots
+        have hget : h.compiled[c'] = cs := by
+          rw [List.getElem?_eq_getElem hc] at hcs; exact Option.some.inj hcs
+        simp [hc, this, hget]
+      · simp [hcc]
+  | get c' n => simp only [step]; split <;> rfl
+  | getAll c' => simp only [step]; split <;> rfl
+  | isDefined c' n => simp only [step]; split <;> rfl
+  | clone c' =>
+    simp only [step]; split
+    · rfl
+    · simp [List.getElem?_append_left hc]
+
+/-- Compiled handle an operation writes to. -/
+def Op.target : Op → Option Nat
+  | .set c _ _ => some c
+  | .run c => some c
+  | _ => none
+
+/-- In the specification handles are independent: an operation changes at most the Compiled it is
+addressed to — in particular a clone and its original never see each other's later Set/Run. -/
+theorem abs_handles_independent (L : Limits) (a : Abs) (op : Op) (c : Nat) (hc : c < a.compiled.length)
+    (ht : Op.target op ≠ some c) : (astep L a op).1.compiled[c]? = a.compiled[c]? := by
+  cases op with
+  | newScript src => rfl
+  | add s n g =>
+    simp only [astep]; split
+    · rfl
+    · split <;> rfl
+  | remove s n =>
+    simp only [astep]; split
+    · rfl
+    · split <;> rfl
+  | compile s =>
+    simp only [astep]; split
+    · rfl
+    · split
+      · rfl
+      · simp [List.getElem?_append_left hc]
+  | set c' n g =>
+    have hne : c' ≠ c := fun h => ht (by simp [Op.target, h])
+    simp only [astep]; split
+    · rfl
+    · split
+      · rfl
+      · split
+        · simp [hne]
+        · rfl
+  | run c' =>
+    have hne : c' ≠ c := fun h => ht (by simp [Op.target, h])
+    simp only [astep]; split
+    · rfl
+    · simp [hne]
+  | get c' n => simp only [astep]; split <;> rfl
+  | getAll c' => simp only [astep]; split <;> rfl
+  | isDefined c' n => simp only [astep]; split <;> rfl
+  | clone c' =>
+    simp only [astep]; split
+    · rfl
+    · simp [List.getElem?_append_left hc]
+
+/-- A clone starts as a deep copy of its original (immutable containers become mutable: `Copy()`). -/
+theorem abs_clone_copies (L : Limits) (a : Abs) (c : Nat) (cs : ACompiled) (hc : a.compiled[c]? = some cs) :
+    (astep L a (.clone c)).1.compiled[a.compiled.length]? =
+      some { env := cs.env.map (fun p => (p.1, p.2.map copyT)), code := cs.code } := by
+  simp [astep, hc]
+
+/-! ## tengo.Eval -/
+
+/-- eval.go is the history `NewScript("__res__ := (expr)")`, `Add` per parameter, `Compile`, `Run`,
+`Get("__res__").Value()`; the model's `eval` is that history by definition. -/
+theorem eval_agrees (L : Limits) (X : Ext) (e : Expr) (params : List (String × GoVal)) :
+    eval L X e params = evalResult X (runOps L {} (evalOps e params)) := rfl
+
+/-- Evaluating a parameter returns its documented normalisation (and through `api_refines_partial` the
+value the specification holds for `__res__`). -/
+theorem eval_param (L : Limits) (X : Ext) (n : String) (g : GoVal) (v : TVal) (hn : n ≠ resName)
+    (hg : fromInterface L g = .ok v) : eval L X (.var n) [(n, g)] = .value (normalize X g) := by
+  rw [← from_to_roundtrip X L g v hg]
+  have hn' : resName ≠ n := Ne.symm hn
+  simp [eval, evalOps, runOps, step, hg, upsert, hasKey, compileNames, exprUnresolved, execC, slotOf, setKey,
+    evalResult, hn, hn']
+  have hb : (resName == n) = false := by simpa using hn'
+  simp [List.lookup, hb, deref]
+
+example (X : Ext) : eval ⟨9, 9⟩ X (.var "p") [("p", .int .uint8 65)] = .value (.int .int32 65) := rfl
+example (X : Ext) : eval ⟨9, 9⟩ X (.var "q") [("p", .int .int 1)] = .runErr (.unresolved "q") := rfl
+example (X : Ext) : eval ⟨9, 9⟩ X (.const (.int 1)) [("p", .unsupported "chan int")] = .addErr (.cannotConvert "chan int") := rfl
+
 end Tengo.Props.C15
